@@ -149,23 +149,42 @@ def lookupKey {κ ν : Type} [DecidableEq κ] (k : κ) : List (κ × ν) → Opt
   | [] => none
   | (k', v) :: rest => if k' = k then some v else lookupKey k rest
 
-/-- named arguments: `for key in sorted(dst_args.keys() & src_args.keys()): src_args[key][0] vs dst_args[key][0]` -/
-def pyMapTypeTags (pfx : Extra) (srcLoc dstLoc : List Char) (src dst : List (List Char × List PEntry)) :
-    List (List Char) → Except Py.Exc (List TagCall)
+/-- the loop shared by the Python-% and python-brace checkers:
+    `for key in sorted(dst_args.keys() & src_args.keys() …): src_arg = src_args[key][0]; dst_arg = dst_args[key][0]; if <clash>: self.tag(…)`;
+    `clash s0 d0` is the tag to emit, if any -/
+def mapTypeTags {κ ν : Type} [DecidableEq κ] (clash : ν → ν → Option TagCall) (src dst : List (κ × List ν)) :
+    List κ → Except Py.Exc (List TagCall)
   | [] => .ok []
   | k :: ks =>
     match lookupKey k src, lookupKey k dst with
     | some (s0 :: _), some (d0 :: _) =>
-      match pyMapTypeTags pfx srcLoc dstLoc src dst ks with
+      match mapTypeTags clash src dst ks with
       | .error e => .error e
-      | .ok rest =>
-        .ok ((if s0.type != d0.type then
-                [tagTypeMismatch "python-format-string-argument-type-mismatch" pfx d0.type.toList dstLoc s0.type.toList srcLoc]
-              else []) ++ rest)
+      | .ok rest => .ok ((clash s0 d0).toList ++ rest)
     | some [], _ => .error .IndexError
     | some (_ :: _), some [] => .error .IndexError
     | none, _ => .error .KeyError
     | some (_ :: _), none => .error .KeyError
+
+/-- shared by the Python-% and python-brace checkers:
+    `missing_keys = src_args.keys() - dst_args.keys()`
+    `if len(missing_keys) == 1 and omitted_int_conv_ok: [missing_key] = missing_keys; if all(<int> for arg in src_args[missing_key]): missing_keys = set()` -/
+def missingKeys {κ ν : Type} [DecidableEq κ] (isInt : ν → Bool) (src : List (κ × List ν)) (missing : List κ) (omittedOk : Bool) :
+    Except Py.Exc (List κ) :=
+  match missing with
+  | [k] =>
+    if omittedOk then
+      match lookupKey k src with
+      | none => .error .KeyError
+      | some uses => if uses.all isInt then .ok [] else .ok [k]
+    else .ok [k]
+  | _ => .ok missing
+
+/-- Python-%: `if src_arg.type != dst_arg.type: self.tag('python-format-string-argument-type-mismatch', …)` -/
+def pyClash (pfx : Extra) (srcLoc dstLoc : List Char) (s0 d0 : PEntry) : Option TagCall :=
+  if s0.type != d0.type then
+    some (tagTypeMismatch "python-format-string-argument-type-mismatch" pfx d0.type.toList dstLoc s0.type.toList srcLoc)
+  else none
 
 /-- `lib/check/msgformat/python.py` `Checker.check_args` -/
 def checkArgsPython (pfx : Extra) (srcLoc : List Char) (src : PyFmt.Result) (dstLoc : List Char) (dst : PyFmt.Result)
@@ -179,67 +198,35 @@ def checkArgsPython (pfx : Extra) (srcLoc : List Char) (src : PyFmt.Result) (dst
   -- named arguments
   let sk := src.map.map (·.1)
   let dk := dst.map.map (·.1)
-  match pyMapTypeTags pfx srcLoc dstLoc src.map dst.map (sortBy strLt (dk.filter (fun k => sk.contains k))) with
+  match mapTypeTags (pyClash pfx srcLoc dstLoc) src.map dst.map (sortBy strLt (dk.filter (fun k => sk.contains k))) with
   | .error e => .error e
   | .ok t3 =>
     let t4 := (sortBy strLt (dk.filter (fun k => !sk.contains k))).map fun k =>
       tagUnknown "python-format-string-unknown-argument" pfx (.str k) srcLoc dstLoc
-    let missing := sk.filter (fun k => !dk.contains k)
-    let missing : Except Py.Exc (List (List Char)) :=
-      match missing with
-      | [k] =>
-        if omittedOk then
-          match lookupKey k src.map with
-          | none => .error .KeyError
-          | some uses => if uses.all (fun a => a.type == "int") then .ok [] else .ok [k]
-        else .ok [k]
-      | _ => .ok missing
-    match missing with
+    match missingKeys (fun a => a.type == "int") src.map (sk.filter (fun k => !dk.contains k)) omittedOk with
     | .error e => .error e
     | .ok missing =>
       let t5 := (sortBy strLt missing).map fun k =>
         tagMissing "python-format-string-missing-argument" pfx (.str k) srcLoc dstLoc
       .ok (t1 ++ t2 ++ t3 ++ t4 ++ t5)
 
-/-- python-brace: `for key in sorted(dst_args.keys() & src_args.keys(), key=sort_key): if not (src_arg.types & dst_arg.types): tag` -/
-def braceTypeTags (pfx : Extra) (srcLoc dstLoc : List Char) (src dst : List (BKey × List TySet)) :
-    List BKey → Except Py.Exc (List TagCall)
-  | [] => .ok []
-  | k :: ks =>
-    match lookupKey k src, lookupKey k dst with
-    | some (s0 :: _), some (d0 :: _) =>
-      match braceTypeTags pfx srcLoc dstLoc src dst ks with
-      | .error e => .error e
-      | .ok rest =>
-        .ok ((if !(s0.inter d0).nonempty then
-                [tagTypeMismatch "python-brace-format-string-argument-type-mismatch" pfx d0.joined dstLoc s0.joined srcLoc]
-              else []) ++ rest)
-    | some [], _ => .error .IndexError
-    | some (_ :: _), some [] => .error .IndexError
-    | none, _ => .error .KeyError
-    | some (_ :: _), none => .error .KeyError
+/-- python-brace: `if not (src_arg.types & dst_arg.types): self.tag('python-brace-format-string-argument-type-mismatch', …)` -/
+def braceClash (pfx : Extra) (srcLoc dstLoc : List Char) (s0 d0 : TySet) : Option TagCall :=
+  if !(s0.inter d0).nonempty then
+    some (tagTypeMismatch "python-brace-format-string-argument-type-mismatch" pfx d0.joined dstLoc s0.joined srcLoc)
+  else none
 
 /-- `lib/check/msgformat/pybrace.py` `Checker.check_args` (every `sorted` has `key=sort_key` since fix 56d8ddf) -/
 def checkArgsPyBrace (pfx : Extra) (srcLoc : List Char) (src : PyBraceSig) (dstLoc : List Char) (dst : PyBraceSig)
     (omittedOk : Bool) : Except Py.Exc (List TagCall) :=
   let sk := src.args.map (·.1)
   let dk := dst.args.map (·.1)
-  match braceTypeTags pfx srcLoc dstLoc src.args dst.args (sortBy BKey.lt (dk.filter (fun k => sk.contains k))) with
+  match mapTypeTags (braceClash pfx srcLoc dstLoc) src.args dst.args (sortBy BKey.lt (dk.filter (fun k => sk.contains k))) with
   | .error e => .error e
   | .ok t1 =>
     let t2 := (sortBy BKey.lt (dk.filter (fun k => !sk.contains k))).map fun k =>
       tagUnknown "python-brace-format-string-unknown-argument" pfx k.extra srcLoc dstLoc
-    let missing := sk.filter (fun k => !dk.contains k)
-    let missing : Except Py.Exc (List BKey) :=
-      match missing with
-      | [k] =>
-        if omittedOk then
-          match lookupKey k src.args with
-          | none => .error .KeyError
-          | some uses => if uses.all (fun a => a.int) then .ok [] else .ok [k]
-        else .ok [k]
-      | _ => .ok missing
-    match missing with
+    match missingKeys (fun a => a.int) src.args (sk.filter (fun k => !dk.contains k)) omittedOk with
     | .error e => .error e
     | .ok missing =>
       let t3 := (sortBy BKey.lt missing).map fun k =>
